@@ -18,4 +18,7 @@ func propC01(c *Ctx, r *Report) {
 	// process-start dependence of the averaging window (shared with C09)
 	r.rule("C01/window-size", 1, "the incrementally maintained averaging window has the size of a reloaded one")
 	windowSize(c, r, "C01/window-size")
+	// the ledger depends on the chain, not on how often the process was started: start-up writes nothing but schema
+	// objects and legacy fork markers (shared with C09)
+	ruleStartupWrites(c, r, "C01/startup-writes")
 }
